@@ -61,7 +61,8 @@ fn cons_bodyform(loc: Srcloc, left: Rc<BodyForm>, right: Rc<BodyForm>) -> BodyFo
     BodyForm::Call(
         loc.clone(),
         vec![
-            Rc::new(BodyForm::Value(SExp::Atom(loc, "c".as_bytes().to_vec()))), // Cons
+            // Cons, by opcode: a user function may be called c.
+            Rc::new(BodyForm::Value(SExp::Atom(loc, vec![4]))),
             left,
             right,
         ],
